@@ -155,8 +155,24 @@ func hasLowByteLegalRune(s string) bool {
 }
 
 type snapshot struct {
-	ts trace.TraceState
-	m  model
+	ts  trace.TraceState
+	m   model
+	str string // joinMembers(m)
+}
+
+func snap(ts trace.TraceState, m model) snapshot { return snapshot{ts, m, joinMembers(m)} }
+
+// walkEquals compares what Walk visits with want without allocating.
+func walkEquals(ts trace.TraceState, want []Member) bool {
+	i, same := 0, true
+	ts.Walk(func(k, v string) bool {
+		if i >= len(want) || want[i].K != k || want[i].V != v {
+			same = false
+		}
+		i++
+		return true
+	})
+	return same && i == len(want)
 }
 
 func runSM(c SMCase) ([]vk.Violation, vk.Info) {
@@ -173,18 +189,18 @@ func runSM(c SMCase) ([]vk.Violation, vk.Info) {
 		bad("valid_tracestate_rejected", "building (%s) the ABNF-valid tracestate %q failed: %v", c.InitVia, joinMembers(m), err)
 		return vs, info
 	}
-	hist := []snapshot{{cur, m}}
+	hist := []snapshot{snap(cur, m)}
 
 	// compare observes ts through every read accessor and compares with model.
 	compare := func(ts trace.TraceState, want model, what string) {
-		if s := ts.String(); s != joinMembers(want) {
-			bad("string_differs_from_model", "%s: String() = %q, model %q", what, s, joinMembers(want))
+		if s, w := ts.String(), joinMembers(want); s != w {
+			bad("string_differs_from_model", "%s: String() = %q, model %q", what, s, w)
 		}
 		if ts.Len() != len(want) {
 			bad("len_differs_from_model", "%s: Len() = %d, model %d", what, ts.Len(), len(want))
 		}
-		if got := readTraceState(ts); !sameMembers(got, want) {
-			bad("walk_differs_from_model", "%s: Walk yields %v, model %v", what, got, []Member(want))
+		if !walkEquals(ts, want) {
+			bad("walk_differs_from_model", "%s: Walk yields %v, model %v", what, readTraceState(ts), []Member(want))
 		}
 		for _, x := range want {
 			if g := ts.Get(x.K); g != x.V {
@@ -237,11 +253,11 @@ func runSM(c SMCase) ([]vk.Violation, vk.Info) {
 				updateN++
 			}
 			cur, m = nts, nm
-			hist = append(hist, snapshot{cur, m})
+			hist = append(hist, snap(cur, m))
 		case "delete":
 			nm, existed := m.delete(k)
 			cur, m = cur.Delete(k), nm
-			hist = append(hist, snapshot{cur, m})
+			hist = append(hist, snap(cur, m))
 			info.ClassIf(existed, "delete_existing_key")
 			info.ClassIf(!existed, "delete_absent_key")
 		case "get":
@@ -271,7 +287,7 @@ func runSM(c SMCase) ([]vk.Violation, vk.Info) {
 				bad("own_string_rejected", "%s: ParseTraceState(String()) of a state with %d members failed: %v; String() = %q", what, len(m), err, cur.String())
 			} else {
 				cur = p
-				hist = append(hist, snapshot{cur, m})
+				hist = append(hist, snap(cur, m))
 			}
 			info.ClassIf(len(m) == 32, "reparse_at_32_members")
 		case "fork":
@@ -288,8 +304,8 @@ func runSM(c SMCase) ([]vk.Violation, vk.Info) {
 			if j > 3 && j < len(hist)-6 {
 				continue
 			}
-			if got := readTraceState(hist[j].ts); !sameMembers(got, hist[j].m) || hist[j].ts.String() != joinMembers(hist[j].m) {
-				bad("earlier_state_mutated", "%s changed state #%d handed out earlier: now %v, was %v", what, j, got, []Member(hist[j].m))
+			if !walkEquals(hist[j].ts, hist[j].m) || hist[j].ts.String() != hist[j].str {
+				bad("earlier_state_mutated", "%s changed state #%d handed out earlier: now %v, was %v", what, j, readTraceState(hist[j].ts), []Member(hist[j].m))
 				break
 			}
 		}
